@@ -59,9 +59,12 @@ class iter_symbols:
 class symtab_init:
     """rejects a zero entry size and a size that is not a multiple of the entry size"""
     params = dict(self=Obj('SymbolTableSection'), header=ShdrT, name=Str, elffile=ELFFileT(), stringtable=StrTab)
-    requires = ["elffile.structs.elfclass == elffile.elfclass", "(header.sh_flags // 0x800) % 2 == 0"]
-    ensures = ["self.header == header", "self.stringtable is stringtable", "self._symbol_name_map is None"]
-    raises = {"ELFError": "header.sh_entsize == 0 or header.sh_size % header.sh_entsize != 0"}
+    requires = ["elffile.structs.elfclass == elffile.elfclass"]
+    sets = dict(header="header", name="name", elffile="elffile", stream="elffile.stream", structs="elffile.structs",
+                stringtable="stringtable", _symbol_name_map="None")
+    # (a compressed symbol table is legal: its compression header must then lie within the file)
+    raises = {"ELFError": "header.sh_entsize == 0 or header.sh_size % header.sh_entsize != 0 or ((header.sh_flags // 0x800) % 2 == 1"
+                          " and header.sh_offset + SZ('Elf_Chdr', elffile.elfclass) > len(elffile.stream.B))"}
 
 
 @contract("elftools/elf/sections.py", "SymbolTableIndexSection.get_section_index", props=["C03"])
